@@ -27,6 +27,7 @@ MAX_CLASSES = 12
 MAX_MIN_PER_CLASS = 2
 MINIMISE_BUDGET_S = 120
 BALLAST = 1100
+GIANT_EVERY = 1500       # every 1500th run uses one array beyond 2**16 cells
 
 
 def _h(s):
@@ -38,7 +39,9 @@ def sched_sig(s):
         return "eager"
     parts = []
     for g, a in s.get("acts", []):
-        if a["k"] == "obs":
+        if a["k"] == "ballast":
+            parts.append("ballast")
+        elif a["k"] == "obs":
             parts.append("o:" + a["step"]["op"] + ":" + str(a["step"].get("f", a["step"].get("ix", [""])[0]))
                          + ("!" if a.get("fail_alloc") is not None else ""))
         else:
@@ -50,6 +53,8 @@ def schedule_touches_pending(s, lay):
     if s.get("eager"):
         return bool(lay.sel_vars)
     for gap, a in s.get("acts", []):
+        if a["k"] == "ballast":
+            continue
         targets = step_reads(a["step"]) if a["k"] == "obs" else [a["v"]]
         pend = lay.pending_at(gap)
         if any(t in pend for t in targets):
@@ -76,7 +81,10 @@ def one_run(prop, seed, i, k, acc, r01_open=False):
         hazard_stream = prop == "C19" or i % 2 == 1
     stream = "hz" if hazard_stream else "hf"
     rng = rng_for(seed, "rag", stream, i)
-    prog, meta, g = gen.generate(rng, hazard_free=not hazard_stream)
+    giant = i % GIANT_EVERY == GIANT_EVERY - 1
+    prog, meta, g = gen.generate(rng, hazard_free=not hazard_stream, giant=giant)
+    if giant:
+        acc["giant_runs"] += 1
     lay = schedule.Layout(prog, g.ex.out, meta)
     srng = rng_for(seed, "rag", stream, i, prop)
     psig = g.signature()
@@ -115,6 +123,17 @@ def one_run(prop, seed, i, k, acc, r01_open=False):
     n_ballast = BALLAST if i % 40 == 7 else 0
     if n_ballast:
         acc["runs_with_ballast"] += 1
+    if n_ballast and i % 80 == 47:
+        # half of the ballast runs build the ballast in the MIDDLE of the program instead (in the compared schedule
+        # only): the program's own selections are then the oldest tracked ones
+        n_ballast = 0
+        brng = rng_for(seed, "rag", stream, i, "ballast")
+        for sa, ea, sb, eb in pairs:
+            gap = brng.randint(1, max(1, len(prog)))
+            sb["schedule"] = {"eager": sb["schedule"].get("eager", False),
+                              "acts": sorted(sb["schedule"].get("acts", []) + [[gap, {"k": "ballast", "n": BALLAST}]],
+                                             key=lambda x: x[0])}
+        acc["runs_with_mid_program_ballast"] += 1
     with ballast(n_ballast):
         _compare_all(prop, prog, pairs, acc, i, seed, stream, hazard_stream, r01_open, lay, psig, run_digest, n_ballast)
     nontrivial_any = acc.pop("__nontrivial_any__", False)
@@ -367,6 +386,8 @@ def main(prop, tier, runs=None, k=None, write=True):
         "programs_with_a_write_while_an_unread_selection_of_the_target_is_alive": int(tot.get("hazard_programs", 0)),
         "stale_alias_divergences_attributed_to_R01": int(tot.get("stale_alias_divergences", 0)),
         "runs_with_ballast_of_1100_live_unread_selections": int(tot.get("runs_with_ballast", 0)),
+        "of_which_ballast_built_in_mid_program": int(tot.get("runs_with_mid_program_ballast", 0)),
+        "runs_with_an_array_beyond_65536_cells": int(tot.get("giant_runs", 0)),
         "selection_steps_returning_normally": f"{int(tot.get('sel_steps_ok', 0))} of {int(tot.get('sel_steps', 0))}",
         "runs_per_hour": int(tot["programs"] / max(wall, 1e-9) * 3600),
         "executions_per_hour": int(tot["executions"] / max(wall, 1e-9) * 3600),
